@@ -109,6 +109,15 @@ def run(ctx):
             for plen in (13, 14, 15, 16):
                 s = b"g" * plen + b"[" + b",".join(b"%d" % (10 ** 19 + 2 * k) for k in range(48)) + b"]"
                 cases.append({"origin": "corpus", "ops": ["create " + hx(s)], "desc": "one group of %d bytes" % len(s)})
+            # numbers printed with a zero-padded WIDTH larger than the whole buffer / the room left (the parser keeps
+            # width = digits of the low bound as typed, unbounded): `lo` alone overruns the remaining space, at every n
+            for width in ((1030,) if ctx.quick() else (1000, 1030, 2000, 4100)):
+                wide = Rec(b"n", 1, 2, width, False)
+                for recs in ([wide], [Rec(b"login", 0, 0, 0, True), wide, Rec(b"n", 7, 9, 3, False)]):
+                    if width > 1100 and len(recs) > 1:
+                        continue
+                    cases.append({"origin": "wide", "ops": ["pmk " + " ".join(r.field() for r in recs)],
+                                  "desc": " ".join(r.field() for r in recs)})
             cases.extend(small_scope(2 if ctx.quick() else 3))
             if not ctx.quick():
                 from vlib.printcheck import SHAPES
@@ -377,6 +386,10 @@ def cli_check(ctx, pr, gen, dist, cov, only=None, builds=None):
                     if more:
                         s += b"," + b",".join(b"m%dx" % j for j in range(more))
                     jobs.append((flag, s))
+        z = b"0" * 1030
+        for flag in ("-q", "-Q"):          # the lower bound alone (1031 digits) is longer than wcoll_str[1024]
+            jobs.append((flag, b"n[" + z + b"1-" + z + b"2]"))
+            jobs.append((flag, b"login,n[" + z + b"1-" + z + b"2],n[007-009]"))
         for _ in range(4 if ctx.quick() else 40):
             c = gen.create()
             s = unhx(c["ops"][0].split()[1])
@@ -393,7 +406,7 @@ def cli_check(ctx, pr, gen, dist, cov, only=None, builds=None):
         if crash is not None or len(ans) != 2 or parse_dump(ans[1]) is None:
             continue
         recs = parse_dump(ans[1])[1]
-        if sum(r.count() for r in recs) > 3000 or long_name(recs):
+        if sum(r.count() for r in recs) > 3000:
             continue
         seqs2.append(["new"] + ["push " + hx(h) for h in all_hosts(recs)] + ["dump"])
         keep.append((flag, s))
@@ -403,7 +416,7 @@ def cli_check(ctx, pr, gen, dist, cov, only=None, builds=None):
             continue
         ans = [ans[0], ans[-1]]
         recs = parse_dump(ans[1])[1]
-        if meta_name(recs) or meta_prefix(recs) or long_name(recs):
+        if meta_name(recs) or meta_prefix(recs):
             continue                      # names with brackets left after two expansions: outside plain target words
         m = ctx.model("print", "list %s\npcli %s\nptext %s\n" % (ans[1], flag[1], "d" if flag == "-Q" else "r"),
                       args=pr.margs())
@@ -473,15 +486,27 @@ def xlist_names(want):
     return names, total
 
 
-def xlist_run(ctx, cli, want, timeout):
-    """pdsh -q -w keep1,keep2,LAST -w -^file, the file holding names whose text has `want` bytes and LAST being the
-    last of them: LAST is excluded iff the WHOLE text reaches the exclusion list"""
+def xlist_case(want):
+    """-> (lines of the file, records of the excluded list, LAST host, bytes of the compressed text).
+    want = N: ungroupable names whose text has N bytes; want = ("wide", W): ONE range w[0..01-0..02] whose numbers are
+    typed with W+1 digits (the lower bound alone is longer than the block list_push_hostlist starts with)"""
+    if isinstance(want, tuple):
+        z = b"0" * want[1]
+        line = b"w[" + z + b"1-" + z + b"2]"
+        return [line], [Rec(b"w", 1, 2, want[1] + 1, False)], b"w" + z + b"2", len(line)
     names, total = xlist_names(want)
-    path = os.path.join(cli.cwd, "xfile%d" % want)
+    return names, [Rec(nm, 0, 0, 0, True) for nm in names], names[-1], total
+
+
+def xlist_run(ctx, cli, want, timeout):
+    """pdsh -q -w keep1,keep2,LAST -w -^file, LAST being the last host of the file: LAST is excluded iff the WHOLE
+    text reaches the exclusion list"""
+    lines, recs, last, total = xlist_case(want)
+    path = os.path.join(cli.cwd, "xfile%s" % (want if not isinstance(want, tuple) else "w%d" % want[1]))
     with open(path, "wb") as f:
-        f.write(b"\n".join(names) + b"\n")
-    cls, line = cli.targets("-q", ["-w", "keep1,keep2," + names[-1].decode(), "-w", "-^" + path], timeout=timeout)
-    return names, total, cls, line
+        f.write(b"\n".join(lines) + b"\n")
+    cls, line = cli.targets("-q", ["-w", "keep1,keep2," + last.decode(), "-w", "-^" + path], timeout=timeout)
+    return (lines, recs, last, path), total, cls, line
 
 
 def xlist_check(ctx, pr, cli, dist, cov):
@@ -495,22 +520,23 @@ def xlist_check(ctx, pr, cli, dist, cov):
     wants = [4092, 4093, 4094, 4095, 4096]
     if pr.xvariant == "fixed" or not ctx.quick():
         wants += [8188, 8189, 8190, 8191, 8192, 9000, 20000]      # one and two doublings, the doubled buffer's boundary
+    if pr.xvariant == "fixed" or not ctx.quick():
+        wants += [("wide", 4100)]               # one range whose width alone exceeds the 4096-byte block
     for want in wants:
-        names, total, cls, line = xlist_run(ctx, cli, want, 3 if pr.xvariant == "unchanged" else 20)
-        recs = [Rec(nm, 0, 0, 0, True) for nm in names]
+        (names, recs, last, path), total, cls, line = xlist_run(ctx, cli, want, 3 if pr.xvariant == "unchanged" else 20)
         m = ctx.model("print", "list %d %d %s\npxlist\n" % (len(recs), len(recs), " ".join(r.field() for r in recs)),
                       args=pr.margs())
         dist["cli"] += 1
         dist["calls"] += 1
-        case = {"origin": "cli-xlist", "exclusion_text_bytes": total, "hosts_in_file": len(names)}
+        case = {"origin": "cli-xlist", "exclusion_text_bytes": total, "hosts_in_file": sum(r.count() for r in recs),
+                "wide": isinstance(want, tuple)}
         for base in (4095, 8191):
             if -2 <= total - (base - 1) <= 2:
                 key = "pdsh -w -^file, exclusion text = %d%+d bytes" % (base - 1, total - (base - 1))
                 dist.setdefault("boundary", {})[key] = dist.setdefault("boundary", {}).get(key, 0) + 1
         if cli.asan and cls != "timeout":
             # the heap block of list_push_hostlist under AddressSanitizer (realloc / doubling bookkeeping)
-            path = os.path.join(cli.cwd, "xfile%d" % want)
-            acls, aline = cli.targets("-q", ["-w", "keep1,keep2," + names[-1].decode(), "-w", "-^" + path], timeout=30,
+            acls, aline = cli.targets("-q", ["-w", "keep1,keep2," + last.decode(), "-w", "-^" + path], timeout=30,
                                       asan=True)
             dist["cli-asan"] = dist.get("cli-asan", 0) + 1
             if acls.startswith("crash:asan"):
@@ -522,8 +548,9 @@ def xlist_check(ctx, pr, cli, dist, cov):
         if (cls == "timeout") != (m[1] == "diverge"):
             ctx.disagreement("print model (list_push_hostlist) vs pdsh -w -^file", "pdsh %s model %s" % (cls, m[1][:40]), case)
         elif cls == "ok":
-            excluded = names[-1] in unhx(m[1]).split(b",")
-            mline = b"keep[1-2]" if excluded else b"keep[1-2]," + names[-1]
+            mtext = unhx(m[1])
+            excluded = (last in mtext.split(b",")) if not isinstance(want, tuple) else (mtext == names[0])
+            mline = b"keep[1-2]" if excluded else b"keep[1-2]," + last
             if line != mline:
                 ctx.disagreement("print model (list_push_hostlist) vs pdsh -w -^file", "pdsh lists `%s` model `%s`" %
                                  (line[:60], mline[:60]), case)
@@ -532,7 +559,7 @@ def xlist_check(ctx, pr, cli, dist, cov):
                          "pdsh -q -w .. -w -^file does not end when the excluded list's text has %d bytes" % total, case)
         elif cls != "ok" or line != b"keep[1-2]":
             ctx.offender("cli-xlist-wrong", "pdsh -q -w keep1,keep2,%s -w -^file (%d-byte exclusion text): %s `%s`" %
-                         (names[-1].decode(), total, cls, (line or b"")[:80].decode("latin1")), case)
+                         (last[:40].decode(), total, cls, (line or b"")[:80].decode("latin1")), case)
 
 
 def load_corpus():
